@@ -12,16 +12,20 @@ from __future__ import annotations
 import ast
 
 _HOME: dict[int, tuple] = {}
+_FN_PARENT: dict[int, object] = {}
 _REPO = [None]
 
 
 def register(repo):
     _REPO[0] = repo
     _HOME.clear()
+    _FN_PARENT.clear()
     for m in repo.modules.values():
         def walk(node, cls, fn):
             for c in ast.iter_child_nodes(node):
                 _HOME[id(c)] = (m, cls, fn)
+                if isinstance(c, (ast.FunctionDef, ast.AsyncFunctionDef)):
+                    _FN_PARENT[id(c)] = fn
                 walk(c, m.classes.get(c.name, cls) if isinstance(c, ast.ClassDef) and node is m.tree else cls, c if isinstance(c, (ast.FunctionDef, ast.AsyncFunctionDef)) else fn)
         walk(m.tree, None, None)
 
@@ -65,3 +69,12 @@ def method_of(cls, name, _seen=None):
             if f is not None:
                 return f
     return None
+
+
+def enclosing_functions(node):
+    """the function definitions a node is written in, innermost first"""
+    out, fn = [], func_of(node)
+    while fn is not None and len(out) < 8:
+        out.append(fn)
+        fn = _FN_PARENT.get(id(fn))
+    return out
